@@ -16,7 +16,7 @@ def run_meta_cmd(W, d, meta):
     # strip "git apply / cmake --build" prefixes (the tool does that itself); keep from the first `cd <demo dir>`
     i = cmd.find('cd %s' % d)
     if i < 0:
-        i = cmd.find('cd /tmp/adv')
+        i = cmd.find('cd ' + os.environ.get('ADV_ROOT', '/tmp/adv'))
     cmd = cmd[i:] if i >= 0 else cmd
     cmd = cmd.split('#')[0].split(' ; ')[0]
     return sh(cmd, timeout=900)
@@ -34,7 +34,7 @@ def build_demo(W, d, meta):
 
 def main():
     ID = sys.argv[1]
-    W = '/tmp/adv/' + ID
+    W = os.environ.get('ADV_ROOT', '/tmp/adv') + '/' + ID
     ks = sys.argv[2:] or sorted(os.path.basename(os.path.dirname(p)) for p in glob.glob(W + '/out/*/patch.diff'))
     for k in ks:
         o = os.path.join(W, 'out', k)
